@@ -27,6 +27,10 @@ impl Drop for Guard {
 	}
 }
 
+pub fn with_ctx_pub<T>(env: &Env, ty: &Ty, target: Target, f: impl FnOnce() -> T) -> T {
+	with_ctx(env, ty, target, f)
+}
+
 fn with_ctx<T>(env: &Env, ty: &Ty, target: Target, f: impl FnOnce() -> T) -> T {
 	CUR.with(|c| {
 		c.set(Some(TlsCtx {
